@@ -47,6 +47,9 @@ def check_divisions(divs, parts, where):
         vals = idx[~idx.isna()] if idx.hasnans else idx
         if len(vals) == 0:
             continue
+        if isinstance(vals, pd.CategoricalIndex):
+            # an unordered categorical has no min/max: compare the labels themselves
+            vals = pd.Index(vals.astype(object))
         try:
             lo, hi = vals.min(), vals.max()
             last = i == n - 1
